@@ -174,7 +174,7 @@ Definition rebuilt (i : input) (cmd : bytes) : bpkt :=
 
 Definition nothing (ran : option N) (msgs : N) : result := mkResult ran [] false msgs.
 
-(* which of the two models: [fixed] = false is today's code *)
+(* [fixed] = false is the code before the repair of finding C22-1 (commit 0268c73), kept for the record *)
 Section Decide.
   Variable fixed : bool.
 
@@ -190,7 +190,7 @@ Section Decide.
   (* handleKeyedCommand *)
   Definition keyed_rewrite_forward_branch (i : input) (ran : option N) : result :=
     (* inside "if e.Forward()": the strict-key case returns nil whether or not the player was
-       disconnected (today's code); the repaired version mirrors the "!hasRun" branch *)
+       disconnected (before the repair); the repaired version mirrors the "!hasRun" branch *)
     if strict_key i then
       if i_fka i then mkResult ran [] true 0
       else if fixed then mkResult ran [rebuilt i (i_cmd i)] false 0
@@ -222,7 +222,9 @@ Section Decide.
     match i_fam i with
     | Unsigned => nothing ran msgs                      (* no last-seen update: nothing to pass on *)
     | _ =>
-      if i_signed i then mkResult ran [] (i_fka i) msgs
+      (* a signed command disconnects the player only under ForceKeyAuthentication; otherwise it is
+         consumed like any other and its last-seen offset is acknowledged (repair of C21-1, f72099c) *)
+      if i_signed i && i_fka i then mkResult ran [] true msgs
       else if negb (i_off i =? 0) then mkResult ran [BAck (i_off i)] false msgs
       else nothing ran msgs
     end.
@@ -258,10 +260,12 @@ Section Decide.
     end.
 End Decide.
 
-Definition impl_decide := decide false.
+(* today's code has finding C22-1 repaired: it is the specification model *)
+Definition impl_decide := decide true.
 Definition spec_decide := decide true.
+Definition prefix_decide := decide false.
 
-(* recorded finding C22-1: a 1.19-1.19.2 client with a LinkedV2 key sends a signed command, the
+(* finding C22-1 (fixed by 0268c73): a 1.19-1.19.2 client with a LinkedV2 key sends a signed command, the
    event forwards it with a changed command line, ForceKeyAuthentication is off *)
 Definition trigger1 (i : input) : bool :=
   match i_fam i with
